@@ -15,12 +15,14 @@ def build(rng):
     ncls = rng.choice([1, 2, 3])
     items = []
     consts = []
+    # in some files the very first pool string (index 0) is the descriptor of a class that gets renamed: no fields of type I, no string sorting before it
+    first_string_is_a_class = rng.random() < 0.12
     for ci in range(ncls):
-        cname = "Lr/C%d;" % ci
+        cname = ("LA/C%d;" if first_string_is_a_class else "Lr/C%d;") % ci
         c = m.add_class(cname)
         items.append({"kind": "class", "key": cname, "orig": cname})
         used = set()
-        for j in range(rng.randrange(1, 4)):
+        for j in range(0 if first_string_is_a_class else rng.randrange(1, 4)):
             nm = rng.choice(pool) if rng.random() < 0.6 else "f%d_%d" % (ci, j)
             if nm in used:
                 continue
@@ -121,11 +123,12 @@ def shard(ctx, arg):
                 it = rng.choice(items)
                 counter += 1
                 if it["kind"] == "class":
-                    new = "Lr/Renamed%d;" % counter
+                    new = rng.choice(["Lr/Renamed%d;", "Lr/Renamed%d;", "Lr/Outer$Inner%d;", "Lr/-$$Lambda$%d;"]) % counter
                 elif used_new[it["kind"]] and rng.random() < 0.3:
                     new = rng.choice(used_new[it["kind"]])  # the same new name given to another item (legal: different class or descriptor... or even a clash)
                 else:
-                    new = "renamed%d" % counter
+                    # any legal member name: javac's synthetic names carry '$', constructors-like names '<' '>', R8 names '-'
+                    new = rng.choice(["renamed%d", "renamed%d", "renamed%d", "this$%d", "$VALUES%d", "val$x%d", "<r%d>", "re-named%d", "\u00e9t\u00e9%d"]) % counter
                     used_new[it["kind"]].append(new)
                 history.append(("set_name", it["kind"], it["key"], new))
                 try:
